@@ -518,6 +518,12 @@ static void regen_float_values(AttSpec &a, bool normal_like) {
       if (k == 0) x = 0.f;
       if (k == 1) x = -0.f;
       if (k == 2) x = static_cast<float>(static_cast<int>(scale * u));
+      if (k == 3) {
+        // just below / above an integer or a 6-decimal rounding boundary (carry into the integer part when printed)
+        const float base = static_cast<float>(static_cast<int>(std::max(-16.0, std::min(16.0, scale * u))));
+        const int w = bulk ? sm.range(0, 5) : R(0, 5);
+        x = w == 0 ? std::nextafterf(base, -100.f) : w == 1 ? std::nextafterf(base, 100.f) : w == 2 ? base - 4e-7f : w == 3 ? base + 0.9999996f : w == 4 ? base + 0.4999995f : base - 0.0000005f;
+      }
       a.data.insert(a.data.end(), reinterpret_cast<uint8_t *>(&x), reinterpret_cast<uint8_t *>(&x) + 4);
     }
   }
